@@ -958,7 +958,11 @@ func (s *Sim) exec(t *stask) {
 	var rep resume
 	oid := 0
 	switch r.kind {
-	case OpStart, OpYield, OpSpawn, OpSleep:
+	case OpYield:
+		// only harnesses yield (before every call they make, and when a simulated
+		// peer pauses): the harness is alive and getting on with its scenario
+		s.out.LastProgress = s.step
+	case OpStart, OpSpawn, OpSleep:
 	case OpGosched:
 		s.count("probe.gosched", 1)
 	case OpAtomic:
